@@ -33,11 +33,12 @@ let do_pattern univ = function
      | None -> "err"
      | Some p ->
        let pr = print_pattern p in
-       let re = match parse_pattern (fld cur) pr with
-         | None -> "reparse-err"
-         | Some p' -> matchvec p' univ in
-       Printf.sprintf "ok\t%s\t%s\t%s\t%s\t%s\t%s" (out p.pprefix) (out p.ptarget)
-         (if p.prec then "1" else "0") (out pr) (matchvec p univ) re)
+       let re, rp = match parse_pattern (fld cur) pr with
+         | None -> "reparse-err", "reparse-err"
+         | Some p' -> matchvec p' univ,
+                      Printf.sprintf "%s:%s:%s" (out p'.pprefix) (out p'.ptarget) (if p'.prec then "1" else "0") in
+       Printf.sprintf "ok\t%s\t%s\t%s\t%s\t%s\t%s\t%s" (out p.pprefix) (out p.ptarget)
+         (if p.prec then "1" else "0") (out pr) (matchvec p univ) re rp)
   | _ -> failwith "pattern: arity"
 
 (* key <algo> <rootid> <pkg> <name> <cmd> <ins> <files> <outs> <deps> <fp> <multiplatform>
